@@ -72,9 +72,11 @@ func runC18(rc *RC) {
 		}
 		plans = append(plans, pl)
 	}
+	// long-lived contexts: the application passes a context that stays alive after the call returned
+	keepCtx := ch.Chance("workload", 1, 3)
 	nInv := ch.Int("workload", 3)
 	nStray := ch.Int("workload", 3)
-	rc.Describe("strategy=%s rooms=%d nick=%v invites=%d stray=%d pause=%d", strat, nRooms, withNick, nInv, nStray, rc.S.PausePerm)
+	rc.Describe("strategy=%s rooms=%d nick=%v invites=%d stray=%d keepctx=%v", strat, nRooms, withNick, nInv, nStray, keepCtx)
 	for _, pl := range plans {
 		for _, c := range pl {
 			rc.Describe("%s %s timeout=%v plan=%d delay=%v others=%d", c.kind, c.room, c.timeout, c.plan, c.delay, c.others)
@@ -97,6 +99,15 @@ func runC18(rc *RC) {
 			var chn *muc.Channel
 			for _, c := range pl {
 				ctx, cancel := context.WithTimeout(e.Ctx, c.timeout)
+				if keepCtx {
+					if c.plan == 2 {
+						c.plan = 0 // a silent room would make the call wait for the whole lifetime of the context
+					}
+					c.timeout = 10 * time.Minute
+					ctx, cancel = context.WithTimeout(e.Ctx, c.timeout)
+					rc.OnCleanup(cancel)
+					cancel = func() {}
+				}
 				pending[c.room] = c
 				c.start = rc.S.Now()
 				switch c.kind {
@@ -215,6 +226,14 @@ func runC18(rc *RC) {
 	st := rc.S.Run(allDone, 200000, 5*time.Minute)
 	rc.S.PausePerm = 0
 	rc.S.Run(nil, 3000, 5*time.Second) // let late answers and noise be handled
+	// afterwards the rooms send an ordinary presence update for every occupant address that was used (role change, status)
+	upd := rc.Spawn("room-updates", func() {
+		for _, pl := range plans {
+			e.PeerWrite(fmt.Sprintf(`<presence from="%s"><x xmlns="http://jabber.org/protocol/muc#user"><item affiliation="member" role="moderator"/></x></presence>`, pl[0].room))
+		}
+	})
+	rc.S.Run(func() bool { return upd.Done() }, 3000, 5*time.Second)
+	rc.S.Run(nil, 3000, 5*time.Second)
 	// ---- oracle ----
 	slack := 700 * time.Millisecond
 	startStep := map[*mucCall]int{}
